@@ -542,10 +542,7 @@ impl MDL {
                                         MDL::read_single3(&mut cursor).unwrap();
                                 }
                                 _ => {
-                                    panic!(
-                                        "Unexpected vertex type for position: {:#?}",
-                                        element.vertex_type
-                                    );
+                                    return None;
                                 }
                             },
                             VertexUsage::BlendWeights => match element.vertex_type {
@@ -567,10 +564,7 @@ impl MDL {
                                     ];
                                 }
                                 _ => {
-                                    panic!(
-                                        "Unexpected vertex type for blendweight: {:#?}",
-                                        element.vertex_type
-                                    );
+                                    return None;
                                 }
                             },
                             VertexUsage::BlendIndices => match element.vertex_type {
@@ -588,10 +582,7 @@ impl MDL {
                                     ];
                                 }
                                 _ => {
-                                    panic!(
-                                        "Unexpected vertex type for blendindice: {:#?}",
-                                        element.vertex_type
-                                    );
+                                    return None;
                                 }
                             },
                             VertexUsage::Normal => match element.vertex_type {
@@ -605,10 +596,7 @@ impl MDL {
                                         MDL::read_single3(&mut cursor).unwrap();
                                 }
                                 _ => {
-                                    panic!(
-                                        "Unexpected vertex type for normal: {:#?}",
-                                        element.vertex_type
-                                    );
+                                    return None;
                                 }
                             },
                             VertexUsage::UV => match element.vertex_type {
@@ -636,10 +624,7 @@ impl MDL {
                                     vertices[k as usize].uv0.clone_from_slice(&combined[0..2]);
                                 }
                                 _ => {
-                                    panic!(
-                                        "Unexpected vertex type for uv: {:#?}",
-                                        element.vertex_type
-                                    );
+                                    return None;
                                 }
                             },
                             VertexUsage::BiTangent => match element.vertex_type {
@@ -648,10 +633,7 @@ impl MDL {
                                         MDL::read_tangent(&mut cursor).unwrap();
                                 }
                                 _ => {
-                                    panic!(
-                                        "Unexpected vertex type for bitangent: {:#?}",
-                                        element.vertex_type
-                                    );
+                                    return None;
                                 }
                             },
                             VertexUsage::Tangent => {
@@ -659,10 +641,7 @@ impl MDL {
                                     // Used for... terrain..?
                                     VertexType::ByteFloat4 => {}
                                     _ => {
-                                        panic!(
-                                            "Unexpected vertex type for tangent: {:#?}",
-                                            element.vertex_type
-                                        );
+                                        return None;
                                     }
                                 }
                             }
@@ -672,10 +651,7 @@ impl MDL {
                                         MDL::read_byte_float4(&mut cursor).unwrap();
                                 }
                                 _ => {
-                                    panic!(
-                                        "Unexpected vertex type for color: {:#?}",
-                                        element.vertex_type
-                                    );
+                                    return None;
                                 }
                             },
                         }
